@@ -141,6 +141,7 @@ class C20(engine.Property):
         "generator states are sampled, not enumerated",
     ]
     expected_probes = [
+        "edge-class-that-calls-randgraph-itself",
         "count-1",
         "count<=5-default-connectivity",
         "connectivity-0",
@@ -201,6 +202,9 @@ class C20(engine.Property):
         ensure = op.get("ensure", True)
         if count == 1:
             s["probe:count-1"] += 1
+        if op.get("edge") == "NestingEdge":
+            s["probe:edge-class-that-calls-randgraph-itself"] += 1
+            s["fault:reentrant-call-from-subclass-override"] += 1
         if count <= 5 and op.get("conn") is None:
             s["probe:count<=5-default-connectivity"] += 1
         if op.get("conn") == 0:
